@@ -21,13 +21,17 @@ let main () =
           let s = ostring_of_coq n in
           if exists && (s = "in.src" || s = "in.bin") then Some [zi 1] else None in
         let cargv = SL.map coq_of_ostring argv in
+        (* the case directory has a sub-directory "adir" and no directory "nodir" *)
+        let writable (n : String.string) : bool =
+          let s = ostring_of_coq n in
+          not (s = "" || s = "adir" || s = "." || (SS.length s >= 6 && SS.sub s 0 6 = "nodir/")) in
         let r = match tool with
-          | "hexasm" -> CliModel.hexasm_main work cargv fs0
-          | "xcmp" -> CliModel.xcmp_main work cargv fs0
+          | "hexasm" -> CliModel.hexasm_main writable work cargv fs0
+          | "xcmp" -> CliModel.xcmp_main writable work cargv fs0
           | "hexsim" -> CliModel.hexsim_main simulate cargv [] fs0
-          | "xrun" -> CliModel.xrun_main work simulate cargv [] fs0
+          | "xrun" -> CliModel.xrun_main writable work simulate cargv [] fs0
           | _ -> failwith "tool" in
-        let cands = SL.sort_uniq compare (argv @ ["a.out"; "a.bin"; "out.bin"; "o2.bin"]) in
+        let cands = SL.sort_uniq compare (SL.filter (fun a -> a <> "adir" && a <> ".") argv @ ["a.out"; "a.bin"; "out.bin"; "o2.bin"]) in
         let changed = SL.filter (fun n -> n <> "" && r.CliModel.files (coq_of_ostring n) <> fs0 (coq_of_ostring n)) cands in
         P.printf "%d %d changed=%s\n" (iz r.CliModel.status) (if r.CliModel.diagnostic then 1 else 0) (SS.concat "," changed)
     | _ -> ()
